@@ -660,12 +660,16 @@ class C19(core.Check):
         if wvis and all(full[i] > minw for i in wvis):
             share = sum(full[i] for i in wvis)
             wsum = sum(opts[i][1] for i in wvis)
-            for i in wvis:
-                dev = abs(Fraction(full[i]) - Fraction(share * opts[i][1], wsum))
-                if dev > 1:
-                    msgs.append(f"cols: weighted column {i} gets {full[i]} of {share}, its proportional share is "
-                                f"{float(Fraction(share * opts[i][1], wsum)):.3f} (weighted columns shown: {len(wvis)})")
-                    break
+            devs = [abs(Fraction(full[i]) - Fraction(share * opts[i][1], wsum)) for i in wvis]
+            worst = max(range(len(wvis)), key=lambda t: devs[t])
+            i = wvis[worst]
+            if devs[worst] > Fraction(max(len(wvis) - 1, 2), 2):
+                # beyond what sequential rounding can explain ((k-1)/2, proved for the model's loop)
+                msgs.append(f"cols: weighted column {i} gets {full[i]} of {share}, far from its proportional share "
+                            f"{float(Fraction(share * opts[i][1], wsum)):.3f} (more than (k-1)/2 off, k = {len(wvis)})")
+            elif devs[worst] > 1:
+                msgs.append(f"cols: weighted column {i} gets {full[i]} of {share}, its proportional share is "
+                            f"{float(Fraction(share * opts[i][1], wsum)):.3f} (weighted columns shown: {len(wvis)})")
         return msgs
 
     def oracle_pile(self, c, res):
@@ -690,12 +694,15 @@ class C19(core.Check):
         if widx and fixed <= maxrow:
             share = sum(rows[i] for i in widx)
             wsum = sum(opts[i][1] for i in widx)
-            for i in widx:
-                dev = abs(Fraction(rows[i]) - Fraction(share * opts[i][1], wsum))
-                if dev > 1:
-                    msgs.append(f"pile: weighted item {i} gets {rows[i]} of {share}, its proportional share is "
-                                f"{float(Fraction(share * opts[i][1], wsum)):.3f} (weighted items: {len(widx)})")
-                    break
+            devs = [abs(Fraction(rows[i]) - Fraction(share * opts[i][1], wsum)) for i in widx]
+            worst = max(range(len(widx)), key=lambda t: devs[t])
+            i = widx[worst]
+            if devs[worst] > Fraction(max(len(widx) - 1, 2), 2):
+                msgs.append(f"pile: weighted item {i} gets {rows[i]} of {share}, far from its proportional share "
+                            f"{float(Fraction(share * opts[i][1], wsum)):.3f} (more than (k-1)/2 off, k = {len(widx)})")
+            elif devs[worst] > 1:
+                msgs.append(f"pile: weighted item {i} gets {rows[i]} of {share}, its proportional share is "
+                            f"{float(Fraction(share * opts[i][1], wsum)):.3f} (weighted items: {len(widx)})")
         return msgs
 
     def oracle_grid(self, c, res):
